@@ -86,6 +86,13 @@ func (c *Ctx) deepLeaves(fn *ssa.Function, isRead bool) (out []leaf, ok bool, wh
 			}
 		}
 		id := d.fieldNameOf(r.v, r.fr)
+		if isRead && id != "" {
+			// read into a field of a local scratch structure and copied from there
+			// into a field of the result: the position is named by where it ends up
+			if dest := d.copyDest(r); dest != "" {
+				id = dest
+			}
+		}
 		if isRead {
 			p, isPtr := t.Underlying().(*types.Pointer)
 			if !isPtr {
@@ -133,6 +140,12 @@ func (c *Ctx) deepLeaves(fn *ssa.Function, isRead bool) (out []leaf, ok bool, wh
 		}
 		e := &codecEntry{call: call, what: "field:" + id, width: binarySize(t), order: order, typ: t}
 		if id == "" {
+			if call.Block() != nil && inLoop(fr.fn, call.Block()) {
+				// which datum this is depends on the iteration, and the loop is not one
+				// the evaluator unrolls: no layout is claimed
+				fail("a datum selected by a loop that is not unrolled")
+				return
+			}
 			e.what = "type:" + ir.TypeString(t)
 			id = "value"
 			// a local of a named struct type: its leaves are named by the type
@@ -437,6 +450,126 @@ func (d *deepView) storedInField(v dval) string {
 		}
 	}
 	return ""
+}
+
+// copyDest: r is the address of a field of a local structure; the field of
+// another structure that a load of it is stored into somewhere in the view
+// ("" if there is none, or more than one).
+func (d *deepView) copyDest(r dval) string {
+	fa, ok := r.v.(*ssa.FieldAddr)
+	if !ok {
+		return ""
+	}
+	obj := d.objectOf(fa.X, r.fr)
+	if _, isLocal := obj.v.(*ssa.Alloc); !isLocal {
+		return ""
+	}
+	own := ir.FieldID(fa)
+	dest := ""
+	for _, di := range d.order {
+		st, isSt := di.i.(*ssa.Store)
+		if !isSt {
+			continue
+		}
+		matched := false
+		switch x := ir.StripConv(st.Val).(type) {
+		case *ssa.UnOp:
+			if fb, isFB := x.X.(*ssa.FieldAddr); x.Op == token.MUL && isFB && fb.Field == fa.Field && ir.FieldID(fb) == own {
+				o := d.objectOf(fb.X, di.fr)
+				if o.same(obj) || d.wholeCopyOf(o, obj) {
+					matched = true
+				}
+			}
+		case *ssa.Field:
+			// the structure was handed back by value: field of (a copy of) the whole
+			if x.Field == fa.Field && ir.FieldID(x) == own {
+				base := d.resolve(x.X, di.fr)
+				if whole, isLd := base.v.(*ssa.UnOp); isLd && whole.Op == token.MUL {
+					if d.objectOf(whole.X, base.fr).same(obj) {
+						matched = true
+					}
+				}
+				// a result of a helper with several exits: the exit that hands back the object
+				var call *ssa.Call
+				idx := 0
+				switch b := base.v.(type) {
+				case *ssa.Extract:
+					call, _ = b.Tuple.(*ssa.Call)
+					idx = b.Index
+				case *ssa.Call:
+					call = b
+				}
+				if call != nil && !matched {
+					if child := d.frameOfCall(base.fr, call); child != nil {
+						for _, ret := range ir.Returns(child.fn) {
+							if idx < len(ret.Results) {
+								if whole, isLd := ret.Results[idx].(*ssa.UnOp); isLd && whole.Op == token.MUL && d.objectOf(whole.X, child).same(obj) {
+									matched = true
+								}
+							}
+						}
+					}
+				}
+			}
+		}
+		if !matched {
+			continue
+		}
+		id := ir.FieldID(st.Addr)
+		if id == "" || id == own {
+			continue
+		}
+		if dest != "" && dest != id {
+			return ""
+		}
+		dest = id
+	}
+	return dest
+}
+
+// wholeCopyOf: the local structure o is assigned exactly once, as a whole, and
+// what is assigned is the content of obj — loaded directly, or handed back by
+// value from the helper in which obj lives (one of its exits returns it).
+func (d *deepView) wholeCopyOf(o, obj dval) bool {
+	a, isA := o.v.(*ssa.Alloc)
+	if !isA {
+		return false
+	}
+	var val ssa.Value
+	var vfr *frame
+	n := 0
+	d.eachStoreTo(a, o.fr, func(st *ssa.Store, f *frame) { val, vfr, n = st.Val, f, n+1 })
+	if n != 1 {
+		return false
+	}
+	base := d.resolve(val, vfr)
+	if whole, isLd := base.v.(*ssa.UnOp); isLd && whole.Op == token.MUL && d.objectOf(whole.X, base.fr).same(obj) {
+		return true
+	}
+	var call *ssa.Call
+	idx := 0
+	switch b := base.v.(type) {
+	case *ssa.Extract:
+		call, _ = b.Tuple.(*ssa.Call)
+		idx = b.Index
+	case *ssa.Call:
+		call = b
+	}
+	if call == nil {
+		return false
+	}
+	child := d.frameOfCall(base.fr, call)
+	if child == nil {
+		return false
+	}
+	for _, ret := range ir.Returns(child.fn) {
+		if idx < len(ret.Results) {
+			if whole, isLd := ret.Results[idx].(*ssa.UnOp); isLd && whole.Op == token.MUL && d.objectOf(whole.X, child).same(obj) {
+				return true
+			}
+		}
+	}
+	return false
 }
 
 // loadedIntoField: the field the content of a local cell is stored into later.
